@@ -284,3 +284,12 @@ package storage
 //@     after call (*storage.OrderedCombinedIterator).head returning i, e : headed = true ; headIdx = i ; headErr = e
 //@     before call storage.TupleIterator.Next | storage.Iterator.Next args it, _ : assert headed && headErr == nil && it == c.pending[headIdx]
 //@     after call storage.TupleIterator.Next | storage.Iterator.Next returning x, e : nexted = true ; nextT = x ; nextErr = e
+
+// ------------------------------------------------------------------ C14: pagination options
+// the page size is the requested one, or the default when none (or a non-positive one) is given; the token is kept
+//@ func NewPaginationOptions(ps, contToken) (o)
+//@   property C14
+//@   option nosafety
+//@   modifies nothing
+//@   ensures @size o.PageSize == (ps > 0 ? ps : storage.DefaultPageSize)
+//@   ensures @from o.From == contToken
